@@ -103,6 +103,17 @@ CHECKS['C17'] = dict(
     design_ref='DESIGN.md section 6, C17',
     technique='Coq proof (invariant over all action sequences of a settled-step machine) + in-Coq correspondence with a real client and transport provider')
 
+CHECKS['C18'] = dict(
+    text='Theorems over every list of composite entries of every kind and both bit-packing back ends (props/C18.v): within the format '
+         'limits (wf_cm, each hypothesis shown necessary by an Example) decode(encode items) = items and re-encoding what encode '
+         'produced reproduces the bytes; the generated MIME and authentication tables are one-to-one (ids, names, mutually inverse '
+         'lookups); over-long names and tags make encode fail rather than produce bytes; cm_decode is total with fuel = length. '
+         '"Decode then encode reproduces the bytes" for ARBITRARY input bytes is refuted by witness (the decoder is not injective). '
+         'Tied to the extension modules by regenerated tables and an in-Coq correspondence (all entry kinds, boundary lengths, every '
+         'well-known id, malformed stream at every truncation offset) under both back ends.',
+    design_ref='DESIGN.md section 6, C18',
+    technique='Coq proof (round-trip by induction over entry lists, finite table checks by vm_compute) + regenerated tables + in-Coq correspondence')
+
 NOT_YET = {}
 
 def main():
